@@ -250,6 +250,28 @@ def eval_gen_history(texts, rp):
                        "detail": {"call_index": i, "indent_level_after": g.indent_level,
                                   "used": got[:300], "fresh": want[:300]}})
             break
+        # visits that start below FileAST (one external declaration, one function body item) and a repeated visit of the
+        # whole tree: each must equal what a brand-new generator prints for that node
+        subs = list(ast.ext) + list(reversed(ast.ext))
+        for e in ast.ext:
+            body = getattr(e, "body", None)
+            if body is not None and getattr(body, "block_items", None):
+                subs += body.block_items[:6]
+        subs.append(ast)
+        for k, node in enumerate(subs[:40]):
+            try:
+                w = S.CGenerator(reduce_parentheses=rp).visit(node)
+            except Exception:  # noqa: BLE001
+                continue
+            try:
+                u = g.visit(node)
+            except Exception as e:  # noqa: BLE001
+                u = f"<raised {type(e).__name__}: {e}>"
+            if u != w:
+                vs.append({"kind": "generator-history-dependent", "sig": "gen-subnode:" + type(node).__name__,
+                           "case": {"mode": "gen", "texts": texts[: i + 1], "rp": rp},
+                           "detail": {"call_index": i, "sub_visit": k, "node": type(node).__name__, "used": u[:300], "fresh": w[:300]}})
+                return vs
     return vs
 
 
@@ -346,7 +368,10 @@ def run_shard(spec):
     elif spec["mode"] == "gen":
         rnd = random.Random(spec["rseed"] + 9)
         ok = []
-        for t in pool + [z for _, z in corpus.zoo()]:
+        from ..gen import extras
+        tagged = ["struct S { int x; } a, *b; enum E { P, Q } e1, e2[2]; void f(void) { enum F { R } r; struct S s2; union U { int i; } u1, u2; }",
+                  "typedef struct N { struct N *next; } N, *NP; struct N head; int g(struct { int a; } *p) { return sizeof(struct M { int b; }); }"]
+        for t in pool + tagged + [z for _, z in corpus.zoo() + extras.TEXTS]:
             try:
                 S.CParser().parse(t, "g.c")
                 ok.append(t)
